@@ -18,6 +18,7 @@ UNIVERSES = {
     'U3x': ((1, 2, 3, 4), 2, ('b', 'a', 'b', 'e'), False, False),
     'U3xd': ((1, 2, 3, 1), 2, ('b', 'a', 'b', 'e'), False, False),
     'U2x': ((1, 2, 4), 2, ('b', 'a', 'e'), False, False),
+    'U3dq': ((1, 2, 1), 2, ('b', 'a', 'c'), False, False),
 }
 
 ATTACH_FAMILIES = {'parent', 'list=', 'list+=', '//', '//1', 'append', 'list.parent=', 'W.tasks.parent=', 'Task()'}
@@ -31,7 +32,7 @@ _CFG = None
 def make_universe(name):
     ids, m, names, links_only, ctor = UNIVERSES[name]
     return core.Universe(name, ids, m, names, links_only=links_only, ctor=ctor,
-                         alphabet='reach' if name in ('U3x', 'U3xd', 'U2x') else 'full')
+                         alphabet='reach' if name in ('U3x', 'U3xd', 'U2x') else 'attach' if name == 'U3dq' else 'full')
 
 
 def _dup_ids_abs(U, a):
